@@ -355,4 +355,11 @@ Qed.
 
 Theorem delete_rb t x t' d f : rbi t -> del ent t x = Done t' d f -> rbi t'.
 Proof. intros Hr Hd. pose proof (del_rb t x Hr) as H. rewrite Hd in H. apply H. Qed.
+Theorem delete_rb_total t x : rbi t ->
+  match del ent t x with
+  | NotFound => True
+  | Stuck => False
+  | Done t' d f => rbi t'
+  end.
+Proof. intros H. pose proof (del_rb t x H) as K. destruct (del ent t x); auto. apply K. Qed.
 End Inv.
